@@ -32,7 +32,7 @@ BOUNDS = {
     "quick": {"set_size": 2, "chain_depth": 2, "chain_shapes": 2},
     "thorough": {"set_size": 3, "chain_depth": 3, "chain_shapes": 6},
 }
-CAP_S = {"quick": 150, "thorough": 2400}
+CAP_S = {"quick": 400, "thorough": 2400}
 
 P_ORD = [["p", 0]]
 P_LABEL = [["lab", ".Lx"], ["p", 0], ["jcc", ".Lx"]]
